@@ -1,6 +1,7 @@
 """C02 — the compiler never crashes and never fails silently."""
 import time
 import collections
+import itertools
 from lib import *
 import faultgen
 import progen
@@ -112,6 +113,14 @@ def finding_class(units, ans):
             a2 = run_harness_serial([rq2])[0]
             if not a2.startswith("crash"):
                 return "crash:panic-or-abort-builtin-used-as-a-value"
+        # ... or by a view of views (`[][]T`, which docs/errors.md calls invalid and the compiler accepts as a parameter type)?
+        # (give the inner arrays a length)
+        rvv = re.compile(r"\[\]\s*\[\]")
+        if any(rvv.search(src) for _, src in units):
+            rq2 = "alpha\tir\t" + "\t".join(x for nm, src in units for x in (nm, esc(rvv.sub("[][1]", src))))
+            a2 = run_harness_serial([rq2])[0]
+            if not a2.startswith("crash"):
+                return "crash:view-of-views"
         return "crash:" + re.sub(r"[0-9]+", "N", first)[:100]
     if ans.startswith("internal"):
         m = re.search(r"msg=(.*)$", ans)
@@ -274,6 +283,25 @@ def main():
         if name.endswith("missing_address_slice_pointer.pn") or name.endswith("valid/builtin_format_array.pn"):
             inputs.append([(os.path.basename(name), src)])
     inputs.append([("a.pn", two_mains), ("b.pn", two_mains)])
+    # values of an opaque structure (there are none): a literal as argument, initialiser, return value, member
+    for use in ("fn bar(o: Owner);\npub fn foo()\n{\n\tbar(Owner {});\n}\n", "pub fn foo()\n{\n\tvar o = Owner {};\n}\n",
+                "fn bar(o: &Owner);\npub fn foo()\n{\n\tvar o = Owner {};\n\tbar(&o);\n}\n",
+                "struct T\n{\n\tp: &Owner,\n}\npub fn foo()\n{\n\tvar o = Owner {};\n\tvar t = T { p: &o };\n}\n"):
+        inputs.append([("o.pn", "struct Owner;\n" + use)])
+    # a view of views (`[][]u8`: docs/errors.md calls the type invalid, the compiler accepts it as a parameter type): indexed
+    inputs.append([("v.pn", "pub fn foo(x: [][]u8) -> u8\n{\n\treturn: x[0][1]\n}\n")])
+    # two modules that both define a function for the program as a whole (E421), with calls to it from either module, from
+    # both, from a third module that imports one of them; every file order
+    for ca in (False, True):
+        for cb in (False, True):
+            for third in (None, "a.pn", "b.pn"):
+                ma = "pub fn foo() -> i32\n{\n\treturn: 1\n}\n" + ("pub fn fa() -> i32\n{\n\treturn: foo()\n}\n" if ca else "")
+                mb = "pub fn foo() -> i32\n{\n\treturn: 2\n}\n" + ("pub fn fb() -> i32\n{\n\tvar x: i32 = foo();\n\treturn: x + foo()\n}\n" if cb else "")
+                mods = [("a.pn", ma), ("b.pn", mb)]
+                if third:
+                    mods.append(("m.pn", 'import "%s";\nfn main() -> i32\n{\n\treturn: foo()\n}\n' % third))
+                for o in itertools.permutations(range(len(mods))):
+                    inputs.append([mods[j] for j in o])
     inputs.append([("m.pn", "fn main()\n{\n\tvar i: (i32) = 0;\n\tvar x: &i32 = &i;\n}\n")])
     inputs.append([("m.pn", "fn main()\n{\n\tvar a: void = 10;\n\tvar b: &u8 = &a;\n}\n")])
     inputs.append([("m.pn", "fn main()\n{\n\tvar x: [5000000000]u8;\n}\n")])
